@@ -74,3 +74,62 @@ Definition run_model_prefix (c : case) : outcome (list fact) :=
                     | OutOfFuel => OutOfFuel
                     end
      end) (map (fun ps => mk_stratum (c_prog c) ps ps) (c_layers c)) (add_all (c_store c) (c_init c)).
+
+(* ================= alias-aware model (Datalog/SolveUF.v): union-find substitutions with
+   variable-variable aliasing. Same case type; judge_uf runs eval_program_uf. *)
+From MV Require Export Datalog.SolveUF.
+
+Definition run_model_uf (strict : bool) (c : case) : outcome (list fact) :=
+  eval_program_uf strict (Z.to_nat (c_fuel c)) (c_prog c) (c_layers c) (c_store c) (c_init c).
+
+Definition verdict_of (r : outcome (list fact)) (o : obs) : Z :=
+  match r, o with
+  | Ok St, OFacts fs => if set_eqb St fs then 0 else 1
+  | Ok _, OEvalErr => 2
+  | Ok _, OLimit => 5
+  | EvalError, OEvalErr => 0
+  | EvalError, OFacts _ => 3
+  | EvalError, OLimit => 5
+  | OutOfFuel, OLimit => 0
+  | OutOfFuel, _ => 4
+  end.
+
+Definition outcome_code {A} (r : outcome A) : Z := match r with Ok _ => 0 | EvalError => 1 | OutOfFuel => 2 end.
+
+(* codes 0-5 as judge. 6 = Go agrees with the model, but the instrumented (strict) run
+   reports that a negated atom or a "!=" was evaluated while an argument was still an unbound
+   variable: the input is outside the hypothesis of the order-independence theorems
+   (Props/C01.v alias_elimination_sound); never seen on clauses the analysis accepts. *)
+Definition judge_uf (c : case) : Z :=
+  let r := run_model_uf false c in
+  let v := verdict_of r (c_obs c) in
+  if v =? 0 then (if outcome_code r =? outcome_code (run_model_uf true c) then 0 else 6) else v.
+
+Definition model_tokens_uf (c : case) : list Z := outcome_tokens (run_model_uf false c).
+
+(* an alias-free original through both models: the common code, or 100 + 10 * judge + judge_uf *)
+Definition judge_both (c : case) : Z :=
+  let a := judge c in
+  let b := judge_uf c in
+  if a =? b then a else 100 + 10 * a + b.
+
+(* the alias stream: an original and its aliasing variants in one term. A variant is the
+   original's program with some clauses replaced (position, clause) and what Go observed on
+   it (VSame = the same observation as on the original). *)
+Inductive vobs := VSame | VObs (o : obs).
+
+Fixpoint patch_at (k : Z) (P : list clause) (chg : list (Z * clause)) : list clause :=
+  match P with
+  | [] => []
+  | c :: P' => (match find (fun ic => Z.eqb (fst ic) k) chg with Some ic => snd ic | None => c end)
+               :: patch_at (k + 1) P' chg
+  end.
+
+Definition variant_case (c : case) (v : list (Z * clause) * vobs) : case :=
+  mkCase (patch_at 0 (c_prog c) (fst v)) (c_layers c) (c_store c) (c_init c) (c_fuel c)
+         (match snd v with VSame => c_obs c | VObs o => o end).
+
+(* judge_both of the original + 1000 * sum_j 7^j * judge_uf (variant j) *)
+Definition judge_alias (cv : case * list (list (Z * clause) * vobs)) : Z :=
+  judge_both (fst cv)
+  + 1000 * fold_right (fun v acc => judge_uf (variant_case (fst cv) v) + 7 * acc) 0 (snd cv).
